@@ -73,7 +73,7 @@ pub fn field_names(targets: &[ObjectId]) -> Vec<String> {
         let t = format!("{}_{}", t.0, t.1);
         for q in ["go", "gom", "gd", "pc", "pcc", "pr", "pf", "pa", "pi", "op", "fe", "nd"] { v.push(format!("{}:{}", q, t)); }
     }
-    v.push("outl".into()); v.push("toc".into()); v.push("dests".into()); v.push("text".into());
+    v.push("outl".into()); v.push("toc".into()); v.push("dests".into()); v.push("text".into()); v.push("xt".into());
     v
 }
 
@@ -166,6 +166,25 @@ pub fn eval_field(doc: &mut Document, field: &str) -> String {
         "toc" => run_field(|| {
             let t = e(doc.get_toc())?;
             Ok(format!("{}{},{}", t.toc.len(), t.toc.iter().map(|x| format!(":{}.{}", x.level, x.page)).collect::<String>(), t.errors.len()))
+        }),
+        // extract_text compared with the composed model (C13 pages/fonts + C09 filters + C14 parser + C16 text loop);
+        // `?` = outside that model: ToUnicode font (C15), UTF-16 Encoding name (encoding_rs), filtered content (flate2 / weezl)
+        "xt" => run_field(|| {
+            let pages = doc.get_pages();
+            let nums: Vec<u32> = (1..=(pages.len().min(3) as u32)).collect();
+            for k in &nums {
+                let pid = pages[k];
+                if let Ok(fonts) = doc.get_page_fonts(pid) {
+                    for (_, f) in fonts {
+                        if f.has(b"ToUnicode") || matches!(f.get(b"Encoding").and_then(Object::as_name), Ok(b"UniGB-UCS2-H") | Ok(b"UniGB-UTF16-H")) { return Ok("?".into()); }
+                    }
+                }
+                for id in doc.get_page_contents(pid) {
+                    if let Ok(Object::Stream(st)) = doc.get_object(id) { if st.dict.has(b"Filter") { return Ok("?".into()); } }
+                }
+            }
+            let t = e(doc.extract_text(&nums))?;
+            Ok(t.chars().map(|c| (c as u32).to_string()).collect::<Vec<_>>().join("."))
         }),
         "text" => run_field(|| {
             let n = doc.get_pages().len() as u32;
@@ -526,7 +545,9 @@ fn dest_steps<'a>(doc: &'a Document, n: &'a Dictionary, budget: &mut i64, depth:
 #[derive(Default, Debug, Clone)]
 struct Hazard { next_cycle: bool, first_cycle: bool, kids_cycle: bool, explosive: bool }
 /// `next_cycle` is no hazard any more (the `Next` loop has a seen-set since 79a3229); it is kept for the counters
-impl Hazard { fn any(&self) -> bool { self.first_cycle || self.kids_cycle || self.explosive } }
+/// Since the walkers carry `seen` sets (bca5e67, ba860eb) no link structure is a hazard any more: every
+/// document runs every walker. The analysis is kept for the branch counters and for naming a hang should one return.
+impl Hazard { fn any(&self) -> bool { false } fn cyclic(&self) -> bool { self.next_cycle || self.first_cycle || self.kids_cycle || self.explosive } }
 
 /// hazards of the outline / destination walk from the catalog, and of `get_named_destinations` on each target
 fn analyse(doc: &Document, targets: &[ObjectId]) -> Hazard {
@@ -618,7 +639,7 @@ fn run_batch(c: &mut Ctx, batch: Vec<Pending>, docs: &[Document]) {
         for (f, v) in fields.iter_mut() {
             if v.starts_with('!') {
                 let raw = v[1..].to_string();
-                *v = if f == "outl" || f == "dests" || f.starts_with("nd:") || (f == "toc" && (outl_div || p.hazard.any())) { "diverge".into() }
+                *v = if f == "outl" || f == "dests" || f.starts_with("nd:") || (f == "toc" && (outl_div || p.hazard.cyclic())) { "diverge".into() }
                      else if raw.starts_with("abort") && (f == "pages" || f == "iter" || f == "toc" || f == "text" || f.starts_with("op:")) { "panic@abort:alloc".into() }
                      else { format!("dead:{}", raw) };
                 c.count(&format!("dead.{}.{}", f.split(':').next().unwrap(), raw.split('_').next().unwrap_or("")));
@@ -632,6 +653,7 @@ fn run_batch(c: &mut Ctx, batch: Vec<Pending>, docs: &[Document]) {
             let q = f.split(':').next().unwrap();
             let class = if v == "ok" || v.starts_with("ok,") { "ok" } else if v == "err" { "err" } else if v.starts_with("panic@") { "panic" } else if v == "diverge" { "diverge" } else { "other" };
             c.count(&format!("outcome.{}.{}", q, class));
+            if q == "xt" { c.count(if v == "ok,?" { "xt.outside_composed_model" } else if v.starts_with("ok,") { "xt.text_compared" } else if v == "ok" { "xt.empty_text_compared" } else { "xt.error_compared" }); }
             if class == "ok" || class == "err" { continue; }
             let qname = match q { "outl" => "get_outlines", "toc" => "get_toc", "dests" | "nd" => "get_named_destinations", "pages" => "get_pages", "iter" => "page_iter.collect",
                 "op" => "get_object_page", "text" => "extract_text", "pi" => "get_page_images", x => x };
@@ -665,8 +687,7 @@ pub fn run(c: &mut Ctx) {
     c.rule = "documents = well-formed generator output (page tree, Contents direct/array/chained, Resources direct/by reference/inherited, \
 fonts with every Encoding branch, image XObjects, Annots, outlines with Dest/A/named destinations, name trees, Encrypt/CF) with 0-12 typed-chaos \
 mutations (a key the queries read re-bound to a value of a random kind or to a reference, possibly forming cycles); every query runs on the real \
-Document in the isolated worker on 3-5 target ids; non-trivial = every case (distinct by request text); unguarded walkers are excluded from \
-documents in which the independent graph analysis finds First/Kids cycles (those go to the dedicated known-finding stream); Next cycles are walked (seen_next)".into();
+Document in the isolated worker on 3-5 target ids; non-trivial = every case (distinct by request text); every walker runs on every document (cyclic Next / First / Kids included: seen-sets)".into();
     let _ = guard(|| ());
     // ---------------- well-formed documents
     let mut batch = vec![]; let mut docs = vec![];
@@ -675,7 +696,7 @@ documents in which the independent graph analysis finds First/Kids cycles (those
         let (doc, leaves) = gen_valid(&mut r);
         let targets = pick_targets(&mut r, &doc, &leaves);
         let hz = analyse(&doc, &targets);
-        if hz.any() { c.oracle_fail("generator", "well-formed generator produced a hazard", json!({"hazard": format!("{:?}", hz)})); }
+        if hz.cyclic() { c.oracle_fail("generator", "well-formed generator produced a cyclic / explosive link structure", json!({"hazard": format!("{:?}", hz)})); }
         let req = request("all", &targets, &doc);
         c.nontrivial(&req);
         if i < 2 { c.sample(json!({"stream": "valid", "request": if req.len() < 600 { req.clone() } else { format!("{}…", &req[..600]) }})); }
@@ -692,6 +713,9 @@ documents in which the independent graph analysis finds First/Kids cycles (those
         let targets = pick_targets(&mut r, &doc, &leaves);
         let hz = analyse(&doc, &targets);
         if hz.next_cycle { c.count("chaos.next_cycle_walked"); }
+        if hz.first_cycle { c.count("chaos.first_cycle_walked"); }
+        if hz.kids_cycle { c.count("chaos.kids_cycle_walked"); }
+        if hz.explosive { c.count("chaos.explosive_dag_walked"); }
         let mode = if hz.any() { c.count("chaos.hazard_nowalk"); "nowalk" } else { "all" };
         let req = request(mode, &targets, &doc);
         c.nontrivial(&req);
@@ -765,6 +789,17 @@ fn cyclic_doc(r: &mut Rng, kind: u64) -> Document {
         2 => mini(outlines_to(11), vec![(10, root), (11, d(vec![("First", rf((11, 0)))]))]),
         3 => mini(outlines_to(11), vec![(10, root), (11, d(vec![("First", rf((12, 0)))])), (12, d(vec![("First", rf((11, 0)))]))]),
         4 => mini(vec![("Dests", rf((15, 0)))], vec![(15, Object::Dictionary(dict(vec![("Kids", Object::Array(vec![rf((15, 0))]))])))]),
+        // inline First whose Next points back to the item: no First reference is ever repeated
+        6 => mini(outlines_to(11), vec![(10, root), (11, d(vec![("First", d(vec![("Next", rf((11, 0)))]))]))]),
+        // chain of inline Next dictionaries ending in a First reference back to the item
+        7 => mini(outlines_to(11), vec![(10, root), (11, d(vec![("Next", d(vec![("Next", d(vec![("First", rf((11, 0)))]))]))]))]),
+        // shared child: 11 and 13 both have First -> 12
+        8 => mini(outlines_to(11), vec![(10, root), (11, d(vec![("First", rf((12, 0))), ("Next", rf((13, 0)))])), (12, d(vec![])), (13, d(vec![("First", rf((12, 0)))]))]),
+        // explosive DAG: 40 items, each with First and Next -> the following item (2^40 paths without a global seen-set)
+        9 => { let mut objs = vec![(10, root)]; for k in 0..40u32 { let nx = rf((12 + k, 0)); objs.push((11 + k, if k < 39 { d(vec![("First", nx.clone()), ("Next", nx)]) } else { d(vec![]) })); } mini(outlines_to(11), objs) }
+        // name-tree DAG: Kids [16, 16] and an explosive one
+        10 => { let mut objs = vec![]; for k in 0..40u32 { let nx = rf((16 + k, 0)); objs.push((15 + k, Object::Dictionary(if k < 39 { dict(vec![("Kids", Object::Array(vec![nx.clone(), nx]))]) } else { dict(vec![("Names", Object::Array(vec![lit(b"k"), fit_dest()]))]) }))); }
+                mini(vec![("Dests", rf((15, 0)))], objs) }
         _ => mini(vec![("Names", Object::Dictionary(dict(vec![("Dests", rf((15, 0)))])))], vec![
             (15, Object::Dictionary(dict(vec![("Kids", Object::Array(vec![rf((16, 0))]))]))), (16, Object::Dictionary(dict(vec![("Kids", Object::Array(vec![rf((15, 0))]))])))]),
     }
@@ -773,14 +808,14 @@ fn cyclic_doc(r: &mut Rng, kind: u64) -> Document {
 fn known_streams(c: &mut Ctx) {
     // ---------------- cyclic Next / First / Kids (F-C13-b, F-C13-b2, F-C13-d4)
     let mut batch = vec![]; let mut docs = vec![];
-    let n = c.n(6, 36);
+    let n = c.n(11, 44);
     for i in 0..n {
         let Some(mut r) = c.case("cyclic", i) else { continue };
-        let kind = i % 6;
+        let kind = i % 11;
         let doc = cyclic_doc(&mut r, kind);
         let targets = vec![(15, 0)];
         let hz = analyse(&doc, &targets);
-        let fields: Vec<&str> = if kind < 4 { vec!["outl", "toc"] } else if kind == 4 { vec!["dests", "nd:15_0", "outl"] } else { vec!["dests", "toc"] };
+        let fields: Vec<&str> = if kind < 4 || (6..=9).contains(&kind) { vec!["outl", "toc"] } else if kind == 4 || kind == 10 { vec!["dests", "nd:15_0", "outl"] } else { vec!["dests", "toc"] };
         for f in fields {
             let req = request(&format!("one={}", f), &targets, &doc);
             if f == "outl" || f == "dests" { c.nontrivial(&req); } c.count(&format!("cyclic.kind{}", kind));
@@ -793,6 +828,22 @@ fn known_streams(c: &mut Ctx) {
     const B8: i64 = 1152921504606846974; // same for 8-byte elements
     let specials: [i64; 17] = [-1, -5, i64::MIN, 1 << 36, 1 << 40, 1 << 59, 1 << 60, 1 << 62, i64::MAX, B12 - 1, B12, B12 + 1, B8 - 1, B8, B8 + 1, i64::MAX - 1, 1 << 50];
     let mut batch = vec![]; let mut docs = vec![];
+    // ---- outline items with edge-case titles (byte-order-mark fragments, empty, single bytes) and a destination
+    // ---- that resolves to a page of the page tree: get_toc / get_outlines must return
+    for (i, t) in [&b"\xfe"[..], b"\xff", b"\xfe\xff", b"\xff\xfe", b"", b"\xef", b"\xef\xbb", b"\xef\xbb\xbf", b"\xfe\x00", b"\xff\x00\x00", b"\xfe\xff\x00", b"\xff\xfe\x00", b"\x00", b"A", b"\xfe\xff\xd8\x00", b"\xff\xfe\x00\xd8\x00"].iter().enumerate() {
+        let Some(_r) = c.case("toc_titles", i as u64) else { continue };
+        let root = Object::Dictionary(dict(vec![("Type", name("Outlines")), ("First", rf((11, 0))), ("Last", rf((12, 0)))]));
+        let doc = mini(outlines_to(11), vec![(10, root),
+            (11, item(vec![("Title", lit(t)), ("Dest", fit_dest()), ("Next", rf((12, 0)))])),
+            (12, item(vec![("Title", lit(t)), ("A", Object::Dictionary(dict(vec![("S", name("GoTo")), ("D", fit_dest())])))]))]);
+        let targets = vec![(3, 0)];
+        let hz = analyse(&doc, &targets);
+        for f in ["toc", "outl"] {
+            let req = request(&format!("one={}", f), &targets, &doc);
+            c.nontrivial(&req); c.count("toc_titles.cases");
+            batch.push(Pending { case_id: c.cur, stream: "toc_titles".into(), req, doc_targets: targets.clone(), hazard: hz.clone() }); docs.push(doc.clone());
+        }
+    }
     // ---- page trees with cycles through the LAST kid of a node (nothing is pushed on the iterator's stack there):
     // ---- enumeration must still terminate through the iteration budget
     for i in 0..c.n(40, 400) {
